@@ -9,12 +9,21 @@
 (* A configuration: which nodes really have an upstream for E (has), what  *)
 (* every node believes about the others (bel[n] = nodes n believes serve   *)
 (* E - any subset, right or wrong), which nodes are up, the entry node and *)
-(* whether the client itself supplied x-piko-forward: true.  One action    *)
-(* per handler invocation.                                                 *)
+(* what the client itself says about the marker (ext):                     *)
+(*   "none"    nothing                                                     *)
+(*   "forged"  x-piko-forward: true  (the request counts as forwarded)     *)
+(*   "false"   x-piko-forward: false                                       *)
+(*   "hide"    Connection: x-piko-forward (asks every hop to drop the      *)
+(*             marker as a hop-by-hop header)                              *)
+(* Only "forged" has an effect: whatever else the client sends, a request  *)
+(* that was forwarded carries the marker.  One action per handler          *)
+(* invocation.                                                             *)
 (***************************************************************************)
 EXTENDS Integers, FiniteSets, Sequences
 
 CONSTANTS Node
+
+ExtKinds == {"none", "forged", "false", "hide"}
 
 VARIABLES has,     \* nodes with a local upstream for E
           bel,     \* bel[n] \subseteq Node \ {n}
@@ -35,8 +44,8 @@ Init ==
   /\ \A n \in Node : n \notin bel[n]
   /\ up \in SUBSET Node
   /\ entry \in up
-  /\ ext \in BOOLEAN
-  /\ at = entry /\ fwd = ext
+  /\ ext \in ExtKinds
+  /\ at = entry /\ fwd = (ext = "forged")
   /\ hops = 0 /\ runs = [n \in Node |-> 0]
   /\ outcome = "" /\ servedBy = ""
 
@@ -63,7 +72,7 @@ HandlerRunsBounded ==
   /\ \A n \in Node : runs[n] <= 1
   /\ Cardinality({n \in Node : runs[n] > 0}) <= 2
 LocalPreferred == (outcome # "" /\ entry \in has) => (outcome = "served" /\ servedBy = entry /\ hops = 0)
-ForwardedNeverForwards == ext => hops = 0
+ForwardedNeverForwards == ext = "forged" => hops = 0
 ServedOnlyByRealUpstream == outcome = "served" => servedBy \in has
 OutcomeWhenDone == at = "" => outcome \in {"served", "502"}
 Terminates == <>(at = "")
@@ -72,6 +81,6 @@ Terminates == <>(at = "")
 \* that are up, every node serves E iff some up node has an upstream for it
 Settled == \A n \in Node : bel[n] = (has \cap up) \ {n}
 SettledServes ==
-  (Settled /\ ~ext /\ at = "" /\ has \subseteq up) =>
+  (Settled /\ ext # "forged" /\ at = "" /\ has \subseteq up) =>
      (outcome = "served" <=> has # {})
 =============================================================================
